@@ -312,7 +312,7 @@ Proof.
   - inversion Hok as [|? ? Ho Hok']; subst.
     destruct (df_inv_state f hist ps Hinv) as (Hlen & Hwf & Hps).
     destruct Hinv as (Hw & Hne & Hst).
-    destruct o as [d|d| |]; cbn [df_run].
+    destruct o as [d|d| | |]; cbn [df_run].
     + (* single write *)
       unfold df_write.
       destruct (frame (df_id f) (df_bid f) (df_bsz f) (len d)) as [[p b1] s1] eqn:Hfr.
@@ -347,6 +347,9 @@ Proof.
       replace (len (df_bytes f) / blockSize) with (df_bid f) by (rewrite Hlen, blockSize_val in *; lia).
       replace (len (df_bytes f) mod blockSize) with (df_bsz f) by (rewrite Hlen, blockSize_val in *; lia).
       exact Hw.
+    + (* a refused write: the file is what it was, nothing is staged any more *)
+      apply IH; auto. unfold df_inv, df_refuse. cbn [df_id df_bytes df_bid df_bsz df_staged].
+      repeat split; auto.
 Qed.
 
 (* C11 for data files: after ANY history of single writes, staged writes flushed in one
